@@ -27,7 +27,7 @@ ASSUMPTIONS = ['csv parsing and number parsing/formatting are transport: foreign
                'last visited file saying anything about the field (Lean: view_field_eq_last / metadata_last_saved_among_files)',
                'the spike selection of save_spikes_subset_waveforms (random, C17) and get_template().channel_ids (C05) are '
                'observed on the real model and given to the Lean model']
-FIELDS = ['group', 'quality', 'n_x', 'in']       # 'in': cluster_in.tsv is a prefix of the ignored cluster_info.tsv
+FIELDS = ['group', 'quality', 'n_x', 'in', 'ks.label', 'ks.contam', 'ks', 'info.x']   # 'in': cluster_in.tsv is a prefix of the ignored cluster_info.tsv; dotted names: the part after the last dot is not a suffix
 TEXTS = ['good', 'mua', 'a\tb', 'x,y', 'say "hi"', 'noise ']
 
 
